@@ -332,6 +332,17 @@ def mk_extra(i, x):
     return kw
 
 
+def lobj_of(case):
+    """object id of the label at each position (default: all distinct objects)"""
+    return case.get('lobj') or list(range(len(case['labs'] or [])))
+
+
+def first_pos(case, j):
+    """the position whose shape the object at position j has (the first one using the same object)"""
+    lobj = lobj_of(case)
+    return lobj.index(lobj[j])
+
+
 def mk_bdf(kind):
     if kind is None:
         return None
@@ -388,6 +399,13 @@ class Components(Stream):
                             out.append({'name': rng.choice(names), 'sel': s, 'nsid': nsid, 'ids': ids, 'labs': labs,
                                         'parent': parent})
             if n >= 2:
+                # ONE label object handed to several ports (and, with spare labels, to a port and a spare position)
+                for kinds in ([None] * n, [2] * n, ['s'] * n):
+                    for ids in (None, ids_ok):
+                        out.append({'name': rng.choice(names), 'sel': sels[0], 'nsid': None, 'ids': ids, 'labs': list(kinds),
+                                    'lobj': [0] * n, 'lx': ['mv'] * n, 'parent': None})
+                out.append({'name': 'nic1', 'sel': sels[0], 'nsid': None, 'ids': None, 'labs': [None] * (n + 1),
+                            'lobj': list(range(n)) + [0], 'lx': ['m'] * (n + 1), 'parent': None})
                 # per-port label shapes chosen INDEPENDENTLY: every ordered combination of bdf shapes across the ports
                 # (a loop that carries state from one port to the next shows only on mixed shapes), the other label
                 # fields (mac, vlan_range) present or absent per port at random.  Never sampled away for the
@@ -427,12 +445,17 @@ class Components(Stream):
         if case['labs'] is not None:
             labs = []
             lx = case.get('lx') or ['m'] * len(case['labs'])
+            lobj = lobj_of(case)
+            objs = {}
             for i, k in enumerate(case['labs']):
-                kw = mk_extra(i, lx[i])
-                b = mk_bdf(k)
-                if b is not None:
-                    kw['bdf'] = b
-                labs.append(Labels(**kw))
+                if lobj[i] not in objs:           # one python object per object id; its shape = first position using it
+                    kw = mk_extra(i, lx[i])
+                    kw['device_name'] = 'obj-%d' % lobj[i]      # survives copying: identifies the caller's object by value
+                    b = mk_bdf(k)
+                    if b is not None:
+                        kw['bdf'] = b
+                    objs[lobj[i]] = Labels(**kw)
+                labs.append(objs[lobj[i]])
         kw = {}
         s = case['sel']
         if s[0] == 'mt':
@@ -450,7 +473,13 @@ class Components(Stream):
 
     def observe(self, case):
         c, labs, _ = self.call(case)
-        return c if isinstance(c, dict) else self.snapshot(c, case, labs)
+        return self.full(c, case, labs)
+
+    def full(self, c, case, labs):
+        """{'res': component tree | {'err'}, 'after': local_name of every label object the caller handed over, now}"""
+        cp = lambda x: list(x) if isinstance(x, list) else x
+        return {'res': c if isinstance(c, dict) else self.snapshot(c, case, labs),
+                'after': [cp(l.local_name) for l in (labs or [])]}
 
     def snapshot(self, c, case, labs):
         """canonical observation of a component object (may be taken again later: aliasing checks)"""
@@ -473,16 +502,16 @@ class Components(Stream):
             for key, i in n.interface_info.interfaces.items():
                 l = i.labels
                 tag = None
-                for j, lb in enumerate(labs or []):
-                    if lb is l:
-                        tag = j
+                if isinstance(l.device_name, str) and l.device_name.startswith('obj-'):
+                    tag = int(l.device_name[4:])
                 cap = i.capacities
                 others = [v for f, v in cap.__dict__.items() if f not in ('unit', 'bw')] + \
-                         [v for f, v in l.__dict__.items() if f not in ('bdf', 'mac', 'vlan_range', 'local_name')]
+                         [v for f, v in l.__dict__.items() if f not in ('bdf', 'mac', 'vlan_range', 'local_name', 'device_name')]
                 if key != i.resource_name or any(others):
                     return {'err': 'SHAPE:interface %s' % key}
                 if tag is not None:
-                    want = mk_extra(tag, (case.get('lx') or ['m'] * len(labs))[tag])
+                    fp = lobj_of(case).index(tag)
+                    want = mk_extra(fp, (case.get('lx') or ['m'] * len(labs))[fp])
                     if (l.mac, l.vlan_range) != (want.get('mac'), want.get('vlan_range')):
                         return {'err': 'SHAPE:interface %s mac/vlan_range labels changed' % key}
                 elif l.mac is not None or l.vlan_range is not None:
@@ -508,14 +537,18 @@ class Components(Stream):
         def lab(i, k):
             b = 'BNone' if k is None else ('(BStr %s)' % cstr(mk_bdf(k)) if k == 's'
                                            else '(BList %s)' % clist([cstr(x) for x in mk_bdf(k)]))
-            return '{| lab_bdf := %s; lab_tag := %s |}' % (b, cN(i))
+            return '{| lab_bdf := %s; lab_tag := %s |}' % (b, cN(lobj[i]))
         ids = copt(case['ids'], lambda l: clist([cstr(x) for x in l]))
-        labs = copt(case['labs'], lambda l: clist([lab(i, k) for i, k in enumerate(l)]))
+        lobj = lobj_of(case)
+        labs = copt(case['labs'], lambda l: clist([lab(i, l[first_pos(case, i)]) for i in range(len(l))]))
         return '(%s, %s, %s, %s, %s, %s)' % (cstr(case['name']), sel, copt(case['nsid'], cstr), ids, labs,
                                              copt(case['parent'], cstr))
 
+    def obs_val(self, o):
+        return py_val([o['res'], o['after']])
+
     def to_coq(self, case, o):
-        return '(%s, %s)' % (self.case_term(case), py_val(o))
+        return '(%s, %s)' % (self.case_term(case), self.obs_val(o))
 
     def entry_for(self, case):
         cat = self.catalog()
@@ -532,6 +565,17 @@ class Components(Stream):
 
     def oracle(self, case, o):
         """the component matches the catalogue entry (read here from the JSON file, independently of the model)"""
+        after = o['after']
+        o = o['res']
+        why = self.oracle_res(case, o)
+        if why:
+            return why
+        # the caller's own label objects: snapshot before (they are built with local_name unset) vs after the call
+        if any(x is not None for x in after):
+            return 'caller label object modified: local_name %r stamped into the Labels objects handed over' % (after,)
+        return None
+
+    def oracle_res(self, case, o):
         e = self.entry_for(case)
         if isinstance(e, str):
             return None if o == {'err': e} else 'look-up of %r should raise %s, got %r' % (case['sel'], e, o)
@@ -572,13 +616,16 @@ class Components(Stream):
                 return 'port speed %r differs from the catalogue (%s)' % (bw, ports[p])
             if iid != (ids[j] if ids is not None else None):
                 return 'interface %s carries id %r, supplied %r' % (p, iid, ids[j] if ids else None)
-            if tag != (j if labs is not None else None):
+            if tag != (lobj_of(case)[j] if labs is not None else None):
                 return 'interface %s carries label object #%r' % (p, tag)
-            k = labs[j] if labs is not None else None
+            k = labs[first_pos(case, j)] if labs is not None else None
             want_bdf = mk_bdf(k)
             if bdf != want_bdf:
                 return 'bdf label changed'
             if local != ([p] * len(want_bdf) if isinstance(want_bdf, list) else p):
+                if labs is not None and lobj_of(case)[:len(ports)].count(lobj_of(case)[j]) > 1:
+                    return ('port %s shows local_name %r: the caller label object it shares with another port was '
+                            'overwritten' % (p, local))
                 return 'local_name %r' % (local,)
             want_unit = len(want_bdf) if isinstance(want_bdf, list) else 1
             if unit != want_unit:
@@ -785,7 +832,7 @@ class History(Stream):
                 elif op[0] == 'gen':
                     c, labs, ids = self.cp.call(op[2])
                     held[op[1]] = (c, labs, ids, op[2])
-                    out.append(c if isinstance(c, dict) else self.cp.snapshot(c, op[2], labs))
+                    out.append(self.cp.full(c, op[2], labs))
                 elif op[0] == 'mutate':
                     c, labs, ids, _ = held[op[1]]
                     if not isinstance(c, dict):
@@ -793,7 +840,7 @@ class History(Stream):
                     out.append(None)
                 else:
                     c, labs, ids, cc = held[op[1]]
-                    out.append(c if isinstance(c, dict) else self.cp.snapshot(c, cc, labs))
+                    out.append(self.cp.full(c, cc, labs))
             except Exception as e:
                 out.append({'err': 'HARNESS:' + type(e).__name__})
         return out
@@ -815,7 +862,7 @@ class History(Stream):
             else:
                 cc = op[2] if op[0] == 'gen' else self._gen_case(case, op[1])
                 ops.append('OpGen %s' % self.cp.case_term(cc))
-                vals.append(py_val(o))
+                vals.append(self.cp.obs_val(o) if isinstance(o, dict) and 'res' in o else py_val(o))
         return '(%s, %s)' % (clist(ops), clist(['(%s)' % v for v in vals]))
 
     def oracle(self, case, obs):
